@@ -101,6 +101,10 @@ pub trait Subj: WriterTo + ReaderFrom + PartialEq + Clone + FillUniform + Sized 
     fn touch(&self) -> i64 {
         0
     }
+    /// uses fewer limbs than the buffer holds (size < max_size) where the type offers that; returns whether it did
+    fn shrink(&mut self, _by: usize) -> bool {
+        false
+    }
 }
 
 fn sum(v: &[i64]) -> i64 {
@@ -111,6 +115,15 @@ impl Subj for VecZnx<Vec<u8>> {
     const NAME: &'static str = "VecZnx";
     fn mk(p: &P) -> Self {
         VecZnx::alloc(p.n().0 as usize, p.cols as usize, p.size())
+    }
+    fn shrink(&mut self, by: usize) -> bool {
+        if self.size >= 2 {
+            let ns = (self.size - 1 - by % (self.size - 1)).max(1);
+            self.set_size(ns);
+            true
+        } else {
+            false
+        }
     }
     fn infos(&self) -> Vec<u64> {
         vec![self.n as u64, self.cols as u64, self.size as u64, self.max_size as u64]
@@ -188,6 +201,15 @@ impl Subj for GLWE<Vec<u8>> {
     const NAME: &'static str = "GLWE";
     fn mk(p: &P) -> Self {
         GLWE::alloc(p.n(), p.b(), p.k(), Rank(p.rank as u32))
+    }
+    fn shrink(&mut self, by: usize) -> bool {
+        let sz = self.size();
+        if sz >= 2 {
+            self.data_mut().set_size((sz - 1 - by % (sz - 1)).max(1));
+            true
+        } else {
+            false
+        }
     }
     fn infos(&self) -> Vec<u64> {
         vec![self.n().0 as u64, self.size() as u64, self.rank().0 as u64, self.max_size() as u64]
@@ -463,6 +485,8 @@ fn run_subject<T: Subj>(c: &Case) -> Verdict {
     let mut src = Source::new([c.seed as u8; 32]);
     let mut original = T::mk(&c.p);
     original.fill_uniform(50, &mut src);
+    // a third of the undamaged same-shape cases: an object that uses fewer limbs than its buffer holds
+    let shrunk = c.seed % 3 == 0 && c.recv % 3 == 0 && c.raw.is_none() && original.shrink((c.seed >> 8) as usize);
     let mut bytes = vec![];
     if let Err(e) = original.write_to(&mut bytes) {
         return Verdict::fail(format!("{}|write-failed", T::NAME), format!("write_to of a freshly allocated {} failed: {e}\ncase={c:?}", T::NAME));
@@ -532,8 +556,20 @@ fn run_subject<T: Subj>(c: &Case) -> Verdict {
             if !damaged && c.recv % 3 != 2 {
                 // (1) round trip
                 let same_shape = c.recv % 3 == 0;
-                if same_shape && receiver != original {
+                // (the limbs a shrunk object does not use are not part of its value: those cases are compared below)
+                if same_shape && !shrunk && receiver != original {
                     return Verdict::fail(format!("{tname}|roundtrip"), format!("{tname}: read(write(x)) != x for a receiver cloned from the original shape\ncase={c:?}"));
+                }
+                // an object with size < max_size comes back with its capacity (the receiver's buffer holds it)
+                if same_shape && shrunk && receiver.infos() != original.infos() {
+                    return Verdict::fail(format!("{tname}|roundtrip-dimensions"), format!("{tname}: an object that uses fewer limbs than its buffer holds comes back with other dimensions: wrote {:?}, read {:?} into a receiver of the same capacity\ncase={c:?}", original.infos(), receiver.infos()));
+                }
+                if same_shape && shrunk {
+                    let mut w = vec![];
+                    let ok = guarded(|| receiver.write_to(&mut w)).map(|r| r.is_ok()).unwrap_or(false);
+                    if !ok || w != pristine {
+                        return Verdict::fail(format!("{tname}|roundtrip"), format!("{tname}: write(read(write(x))) != write(x) for an object that uses fewer limbs than its buffer holds\ncase={c:?}"));
+                    }
                 }
             }
         }
